@@ -512,7 +512,7 @@ static void setup(void) {
   ref_selftest();
   ta_install();
   if (!ta_selftest()) vh_die("track allocator self-test failed");
-  if (!strcmp(O.stage, "bigcount")) CAP = (size_t)1 << 30; /* tables of tens of MiB are granted: "memory permitting" holds */
+  if (!strcmp(O.stage, "bigcount") || !strcmp(O.stage, "bigleaf")) CAP = (size_t)1 << 30; /* tables of tens of MiB are granted: "memory permitting" holds */
   ta_set_cap(CAP);
   devnull = fopen("/dev/null", "w");
   if (!devnull) vh_die("cannot open /dev/null");
@@ -956,6 +956,32 @@ static void stage_gianterr(void) {
   for (int w = 0; w < 5; w++) { if (w % O.nshards != O.shard) continue; if (!O.thorough && w == 4) continue; gianterr_case(w); }
 }
 
+/* ---- stage: bigleaf — the whole pipeline on single big leaves (and, for C05, on their truncations) ---- */
+static void stage_bigleaf(void) {
+  uint64_t nb = gen_bigleaf_count();
+  struct vh_buf x = {0};
+  size_t cap0 = CAP;
+  CAP = (size_t)1 << 30; ta_set_cap(CAP); /* "memory permitting": the tables and payloads are granted */
+  for (uint64_t u = 0; u < nb; u++) {
+    if ((int)(u % (uint64_t)O.nshards) != O.shard) continue;
+    rnode* t = gen_bigleaf(u);
+    if (!t) continue;
+    vb_reset(&x);
+    ref_encode_src(t, &x);
+    rn_free(t);
+    if (P == 5) {
+      const size_t cuts[] = {x.n - 1, x.n / 2, 3, 1};
+      for (size_t c = 0; c < 4; c++) if (cuts[c] < x.n) run_input(x.p, cuts[c]);
+      /* a reserved byte / a stray break right after the big item inside an array context */
+      vb_u8(&x, 0x1c); run_input(x.p, x.n);
+    } else run_input(x.p, x.n);
+    VH_COUNT("bigleaf.items", 1);
+    VH_MAX("bigleaf.max_input_bytes", x.n);
+  }
+  CAP = cap0; ta_set_cap(CAP);
+  vb_free(&x);
+}
+
 static void load_run(void) {
   setup();
   size_t bytesN = O.thorough ? 4 : 3;
@@ -970,6 +996,7 @@ static void load_run(void) {
   else if (!strcmp(st, "hugebuf")) stage_hugebuf();
   else if (!strcmp(st, "bigcount")) stage_bigcount();
   else if (!strcmp(st, "gianterr")) stage_gianterr();
+  else if (!strcmp(st, "bigleaf")) stage_bigleaf();
   else vh_die("driver load: unknown stage '%s'", st);
   if (P == 1) vh_set_rule("every enumerated/generated input is run through load, describe, size, serialize, serialize_alloc, copy, release and two streaming passes under ASan+UBSan with CBOR_ASSERT armed; non-trivial = the decoder got past the first head (an item was built, or the failure is a hard error / truncation after at least one complete head); distinct by construction in the exhaustive sweep, by 64-bit hash elsewhere (inputs short enough to be in the sweep are not counted again)");
   else if (P == 2) vh_set_rule("each input is decoded by cbor_load and by the independent RFC 8949 reference decoder; non-trivial = at least one side accepts (tree, read and ownership are then compared); distinct by construction in the exhaustive sweep, by hash elsewhere");
